@@ -126,5 +126,13 @@ pub fn main(n: u64, verbose: bool) -> (usize, usize) {
     r.push(run("RMW atomicity", 1, vec![b(|m, o| o.push(m.fadd(X, 1, Relaxed))), b(|m, o| o.push(m.fadd(X, 1, Relaxed)))], n, &[&[0, 0], &[1, 1]], &[&[0, 1], &[1, 0]], verbose));
     r.push(run("SC read after hb SC write", 2, vec![b(|m, _| { m.st(X, 1, SeqCst); m.st(F, 1, Release); }), b(|m, o| { o.push(m.ld(F, Acquire)); o.push(m.ld(X, SeqCst)); })], n, &[&[1, 0]], &[], verbose));
     r.push(run("SC eco read-read (rb;rf)", 2, vec![b(|m, _| { m.st(X, 1, Relaxed); }), b(|m, o| { o.push(m.ld(X, SeqCst)); o.push(m.ld(Y, SeqCst)); }), b(|m, o| { m.st(Y, 1, SeqCst); o.push(m.ld(X, SeqCst)); })], 2 * n, &[&[1, 0, 0]], &[], verbose));
+    // SeqCst fences mixed with SeqCst accesses ([atomics.order]/4.2-4.4)
+    let fsc = |_: &Mem| {
+        let _ = h_access(0, 0, Op::Fence, 0, 0, SeqCst, SeqCst, Location::caller());
+    };
+    r.push(run("SB sc-rmw + (fence; rlx load) vs sc", 2, vec![b(move |m, o| { m.swap(X, 1, SeqCst); fsc(m); o.push(m.ld(Y, Relaxed)); }), b(|m, o| { m.swap(Y, 1, SeqCst); o.push(m.ld(X, SeqCst)); })], n, &[&[0, 0]], &[&[1, 1], &[0, 1], &[1, 0]], verbose));
+    r.push(run("SB rlx stores, fences both sides", 2, vec![b(move |m, o| { m.st(X, 1, Relaxed); fsc(m); o.push(m.ld(Y, Relaxed)); }), b(move |m, o| { m.st(Y, 1, Relaxed); fsc(m); o.push(m.ld(X, Relaxed)); })], n, &[&[0, 0]], &[&[1, 1]], verbose));
+    r.push(run("SB fence one side only", 2, vec![b(move |m, o| { m.st(X, 1, Relaxed); fsc(m); o.push(m.ld(Y, Relaxed)); }), b(|m, o| { m.st(Y, 1, Relaxed); o.push(m.ld(X, Relaxed)); })], n, &[], &[&[0, 0]], verbose));
+    r.push(run("SB sc store + (rlx store; fence; rlx load)", 2, vec![b(move |m, o| { m.st(X, 1, Relaxed); fsc(m); o.push(m.ld(Y, Relaxed)); }), b(|m, o| { m.st(Y, 1, SeqCst); o.push(m.ld(X, SeqCst)); })], n, &[&[0, 0]], &[&[1, 1]], verbose));
     (r.len(), r.iter().filter(|&&x| x).count())
 }
